@@ -11,7 +11,7 @@ use serde_json::{json, Value};
 pub fn def() -> PropDef {
     PropDef {
         id: "C18",
-        rule: "adversarial families as full parameter grids: shared pointer chain of k in {0,1,2,8,15,16,17,32,256,4096} segments x segment shape {bare pointer, 1-byte label, 63-byte label, 60 one-byte labels} x record kind {A, NS, MX, SOA, mixed} x packet size {1K..128K}, over-long label runs (up to 8000 labels) shared by all records, dense OPT option lists up to 65535 bytes, plus every input of the L1 byte sweep; oracle: steps <= 64*len+4096 on every input and, inside each family, steps/len at double size <= 1.25 x steps/len + 1; distinct classes = (family shape, accepted?, steps-per-byte bucket)",
+        rule: "adversarial families as full parameter grids: shared pointer chain of k in {0,1,2,8,15,16,17,32,256,4096} segments x segment shape {bare pointer, 1-byte label, 63-byte label, 60 one-byte labels} x record kind {A, NS, MX, SOA, mixed} x packet size {1K..128K}, over-long label runs (up to 8000 labels) shared by all records, dense OPT option lists up to 65535 bytes, pairs (fresh unknown type, record of type t in 1..=260 naming that type in its data) sharing a 120-label name, plus every input of the L1 byte sweep; oracle: steps <= 64*len+4096 on every input and, inside each family, steps/len at double size <= 1.25 x steps/len + 1; distinct classes = (family shape, accepted?, steps-per-byte bucket)",
         run,
         replay,
         bounds: |t| json!({"sizes": sizes(t), "chains": CHAINS, "segment_shapes": 4, "record_kinds": 5, "L1_tail": t.pick(5, 6)}),
@@ -145,6 +145,37 @@ fn run_packet(size: usize, labels: usize, kind: usize) -> Vec<u8> {
     p
 }
 
+/// Response of about `size` bytes: a 120-label question name, then pairs (record of a fresh unknown type,
+/// record of type `t` whose data starts with that fresh type's number, RRSIG-shaped: 18 fixed bytes, a root
+/// name, 4 more bytes), every owner a pointer to the question name. A validator that looks back at earlier
+/// records when it meets a record of type `t` does quadratic work here.
+fn refer_back_packet(size: usize, t: u16) -> Vec<u8> {
+    let mut p = vec![0x12, 0x34, 0x84, 0, 0, 1, 0, 0, 0, 0, 0, 0];
+    for i in 0..120 {
+        p.extend_from_slice(&[1, b'a' + (i % 26) as u8]);
+    }
+    p.push(0);
+    p.extend_from_slice(&[0, 1, 0, 1]);
+    let mut count = 0usize;
+    while p.len() + 60 < size && count + 2 <= 65534 {
+        let fresh = 0x0100u16 + (count / 2) as u16;
+        put_ptr(&mut p, 12);
+        p.extend_from_slice(&fresh.to_be_bytes());
+        p.extend_from_slice(&[0, 1, 0, 0, 0, 1, 0, 0]);
+        put_ptr(&mut p, 12);
+        p.extend_from_slice(&t.to_be_bytes());
+        p.extend_from_slice(&[0, 1, 0, 0, 0, 1, 0, 23]);
+        p.extend_from_slice(&fresh.to_be_bytes());
+        p.extend_from_slice(&[8, 2, 0, 0, 0, 1, 0x7f, 0, 0, 0, 0x60, 0, 0, 0, 0x12, 0x34]);
+        p.push(0);
+        p.extend_from_slice(&[1, 2, 3, 4]);
+        count += 2;
+    }
+    p[6] = (count >> 8) as u8;
+    p[7] = count as u8;
+    p
+}
+
 /// query with one OPT record whose data is `n` options of `olen` bytes each (dense lists)
 fn opt_packet(size: usize, olen: usize) -> Vec<u8> {
     let mut p = vec![0x12, 0x34, 0, 0, 0, 1, 0, 0, 0, 0, 0, 1];
@@ -233,6 +264,18 @@ fn run(ctx: &mut Ctx, rep: &mut Report) {
             let params = json!({"labels": labels, "kind": kind});
             family("run", &params, &|s| run_packet(s, labels, kind), tier, rep);
         }
+    }
+    // every record type 1..=260 (and the meta types) in the role of "a record that refers to an earlier one"
+    for t in (1u16..=260).chain([32768, 32769, 65280, 65535]) {
+        gi += 1;
+        if !ctx.mine(gi) {
+            continue;
+        }
+        let params = json!({"type": t});
+        if ctx.journaling() {
+            ctx.journal(|| json!({"family": "refer", "params": params, "size": 0}));
+        }
+        family("refer", &params, &|s| refer_back_packet(s, t), tier, rep);
     }
     for olen in [0usize, 1, 4, 100] {
         gi += 1;
@@ -337,6 +380,10 @@ fn replay(case: &Value) -> Result<String, String> {
         "chain" => {
             let sh = Shape { k: u("k"), seg: u("seg"), kind: u("kind") };
             Box::new(move |s| chain_packet(s, sh))
+        }
+        "refer" => {
+            let t = u("type") as u16;
+            Box::new(move |s| refer_back_packet(s, t))
         }
         "run" => {
             let (l, k) = (u("labels"), u("kind"));
